@@ -115,7 +115,11 @@ def traces_differ(tr1, tr2, rel=1e-7):
     if tr1['build_error'] is not None:
         return None
     e1, e2 = tr1['error'], tr2['error']
-    if (e1 is None) != (e2 is None) or (e1 is not None and (e1[0], e1[1]) != (e2[0], e2[1])):
+
+    def where(tr, e):
+        # which *run* of the schedule failed (the variant may contain extra in-place re-expression ops)
+        return sum(1 for r in tr['ops'][:e[0] + 1] if r['op'] == 'run'), tr['ops'][e[0]]['op'] if e[0] < len(tr['ops']) else None
+    if (e1 is None) != (e2 is None) or (e1 is not None and (where(tr1, e1), e1[1]) != (where(tr2, e2), e2[1])):
         return f'simulation outcome differs: {e1} vs {e2}'
     if len(tr1['time']) != len(tr2['time']):
         return f"{len(tr1['time'])} vs {len(tr2['time'])} recorded instants (stop instant / time axis differ)"
